@@ -34,7 +34,8 @@ SAFE_LISTS = {  # (class, field) -> category of new elements
 }
 
 NEW_EXPRS = ['nx', 'nf(ny)', '7', "'ns'", 'nx + ny', 'nx.ny', 'nx[ny]', '[nx, ny]', '(nx, ny)', 'nx if ny else nz',
-             'not nx', 'nx < ny', 'nx and ny', 'lambda: nx', '{nx: ny}', 'nf(nx, k=ny)', '-nx', 'nx ** ny', 'nä', "'🎉'"]
+             'not nx', 'nx < ny', 'nx and ny', 'lambda: nx', '{nx: ny}', 'nf(nx, k=ny)', '-nx', 'nx ** ny', 'nä', "'🎉'",
+             'await nx', 'yield nx', 'nx := ny', '*nx', 'nx, ny', 'nx if ny else nz', 'lambda nq: nq', 'not nx', 'nx or ny', '-nx ** ny']
 NEW_STMTS = ['nx = ny', 'pass', 'nf(nx)', 'del nx', 'return nx', 'nx += 1', 'assert nx', 'import nx', 'if nx:\n    ny',
              'for nx in ny:\n    nz', 'def ng(na, nb=1):\n    return na', 'class NC:\n    nx = 1', 'with nx as ny:\n    nz',
              'try:\n    nx\nexcept ny:\n    nz', 'while nx:\n    break', 'nx: int = 1', 'raise nx', '"new doc"',
